@@ -32,7 +32,7 @@ class DC(Exception):
 
 
 ASCII_S = ["abc", "Hello World", "a", "MiXeD cAsE", "x1y2", "  pad  ", "tab\tsep", "aaa", "a-b_c.d", "aaaa", "abcabc",
-           "one two  three", "ALLCAPS", "q"]
+           "one two  three", "ALLCAPS", "q", "", ""]      # the empty string is an argument like any other
 UNI_S = ["éàü", "αβγ", "Жук", "日本語", "éa", "naïve café", " nb ", "　wide　", "ÀÉÎ", "straße",
          "ǅ x", "ﬁn", "ı", "Ωmega"]
 NUM_S = ["0", "5", "-3", "2.5", "100", "255", "1024", "9223372036854775807", "9223372036854775808", "-0.5", "1e3", "16", "8", "1",
